@@ -521,6 +521,12 @@ pub fn debug_case(workers: usize, shard: usize, kind: &str) -> i32 {
 /// The failed-backlog case seen through C09: accepted writes behind a failed batch must
 /// not vanish; once the device works again everything accepted is durable.
 pub fn failed_backlog_for_c09(report: &mut Report) {
+    failed_backlog_for(report, "C09")
+}
+
+/// The same two cases for another property's check (`tag`: C02 - what was accepted is acknowledged by the
+/// coordinator rounds that report nothing left to do - or C09).
+pub fn failed_backlog_for(report: &mut Report, tag: &str) {
     let mut cases = 0u64;
     for (workers, shard) in [(1usize, 0usize), (2, 1)] {
         let r = run_case(workers, shard, Kind::BacklogAfterFailedBatch, Neighbours::Idle);
@@ -529,7 +535,7 @@ pub fn failed_backlog_for_c09(report: &mut Report) {
             report.machinery(format!("[failed backlog, {workers} workers] {m}"));
         }
         for p in r.problems.into_iter().take(2) {
-            let msg = p.replacen("C19:", "C09: after a record batch failed three times and the device recovered,", 1);
+            let msg = p.replacen("C19:", &format!("{tag}: after a record batch failed three times and the device recovered,"), 1);
             report.violation(format!("fault|failed-backlog|{workers} workers|{}", msg.chars().take(120).collect::<String>()), msg, json!({"engine":"c19-case","workers":workers,"shard":shard,"kind":"backlog"}));
         }
     }
